@@ -233,6 +233,7 @@ func cmdCheck(args []string) {
 			for _, re := range rfs {
 				if re.MatchString(sk) {
 					all = append(all, L.receiverFrame(fn, cfg.ReceiverFrameAccessors)...)
+					all = append(all, L.globalFrame(fn, cfg.ReceiverFrameAccessors)...)
 					cnt++
 					break
 				}
@@ -380,7 +381,10 @@ func cmdCheck(args []string) {
 			continue
 		}
 		suffix := " no-failing-input-found"
-		if o.Verdict == "sat" || o.Verdict == "sat-relaxed" {
+		structural := o.Prefix == 1 && o.Goal == "false" // decided on go/ssa: there is no input to replay
+		if structural {
+			rf.Outcome = "no-model"
+		} else if o.Verdict == "sat" || o.Verdict == "sat-relaxed" {
 			shrinkAndModel(o, opt)
 			rf.Model = compactModel(o.Model)
 			fn := fnOf[o.Func]
